@@ -420,7 +420,44 @@ class Run:
         await self.portal.stop(cr)
         self.ev("stop", int(cr))  # logged in the loop thread: exact w.r.t. the callables' own events
 
+    def do_stop_again(self) -> None:
+        """a second stop, now with cancel_remaining: only code already in the loop can still call it
+        (foreign threads are refused once the portal has stopped)"""
+        done = threading.Event()
+        res: dict[str, Any] = {}
+
+        def post() -> None:
+            async def again() -> None:
+                try:
+                    await self.portal.stop(True)
+                    self.ev("stop", 1)
+                except BaseException as e:  # noqa: BLE001
+                    res["exc"] = e
+                finally:
+                    done.set()
+
+            res["task"] = asyncio.ensure_future(again())
+
+        self.loop.call_soon_threadsafe(post)
+        if not done.wait(WAIT):
+            raise HarnessError("second portal.stop(cancel_remaining=True) did not run")
+        if "exc" in res:
+            raise HarnessError(f"second portal.stop raised {res['exc']!r}")
+        self.stop_cr = True
+        self.settle()
+        self.lines.append(("stopinloop 1", "env"))
+        self.snap()
+
     def do_stop(self, cr: int) -> None:
+        if (self.stopped and cr and not self.stop_cr and self.exit_thread is None and not self.blocked
+                and self.stop_pending is None and self.loop is not None and not self.loop.is_closed()
+                and self.loop.is_running()
+                and any(self.entered[c] and self.ended[c] is None and not self.released[c]
+                        for c in range(len(self.entered)))):
+            # (only while some call is parked at its gate: otherwise the portal's loop is already
+            # winding down by itself and nothing can be posted to it any more)
+            self.do_stop_again()
+            return
         if self.stopped or self.exit_thread is not None:
             return
         res: dict[str, Any] = {}
@@ -609,9 +646,15 @@ def oracle(r: Run) -> str | None:
     exit_seq = None
     end_seq: dict[int, int] = {}
     stop_seq = None
+    cr_seq = None  # first stop(cancel_remaining=True)
+    exec_seq: dict[int, int] = {}
     issue_seq: dict[int, int] = {}
     for rec in r.log:
         seq, kind = rec[0], rec[1]
+        if kind == "stop" and rec[2] == 1 and cr_seq is None:
+            cr_seq = seq
+        if kind == "exec":
+            exec_seq.setdefault(rec[2], seq)
         if kind == "exit_done":
             exit_seq = seq
         elif kind == "end":
@@ -709,6 +752,11 @@ def oracle(r: Run) -> str | None:
                         return f"call {c}: Future holds {f.exception() or f.result()!r}, the callable returned {end[1]!r}"
                 elif f.exception() is not end[1]:
                     return f"call {c}: Future holds {f.exception()!r}, the callable raised {end[1]!r}"
+        # --- stop(cancel_remaining=True) cancels the tasks that are running at that moment
+        if (cr_seq is not None and spec["fn"] == "coro" and c in exec_seq and exec_seq[c] < cr_seq
+                and end_seq.get(c, cr_seq + 1) > cr_seq and end[0] != "c"):
+            return (f"call {c}'s task was running when stop(cancel_remaining=True) was executed but it was "
+                    f"not cancelled (it ended {end[0]})")
         # --- cancellation reaches exactly the calls it was aimed at
         if end[0] == "c" and not fut_cancelled_by_caller and not cancel_all:
             return (f"call {c}'s task was cancelled although its Future was not cancelled and "
@@ -793,7 +841,11 @@ def gen_case(rng: random.Random, max_n: int) -> dict:
     # stop / exit somewhere in the tail
     r = rng.random()
     if r < 0.35:
-        tail.insert(rng.randint(0, len(tail)), ["stop", int(rng.random() < 0.5)])
+        at = rng.randint(0, len(tail))
+        tail.insert(at, ["stop", int(rng.random() < 0.5)])
+        if tail[at][1] == 0 and rng.random() < 0.4:
+            # a polite stop first, then (while calls are still running) one that cancels the rest
+            tail.insert(rng.randint(at + 1, len(tail)), ["stop", 1])
     elif r < 0.6:
         tail.insert(rng.randint(0, len(tail)), ["exit", int(rng.random() < 0.5)])
     steps = body + tail
